@@ -79,39 +79,6 @@ Section Linearity.
   Qed.
 End Linearity.
 
-(* the generated pieces are linear *)
-Lemma bvp_scheme_linear Y00 : scheme_linear Y00 bvp_scheme.
-Proof.
-  unfold scheme_linear, bvp_scheme; cbn [s_fx s_vals s_boundary s_radial]. split; [|split; [|split; [|split]]].
-  - intros. unfold bvp_fx. ring.
-  - intros l m a b B1 B2. unfold bvp_cond, lin_vals. destruct (bvp_is_monopole l m); cbn [map snd combine fst];
-      (apply (f_equal2 cons); [ring|apply (f_equal2 cons); [ring|reflexivity]]).
-  - intros l m B1 B2. unfold bvp_cond. destruct (bvp_is_monopole l m); reflexivity.
-  - intros. unfold bvp_boundary, Rdiv. ring.
-  - intros. unfold bvp_radial_value, Rdiv. ring.
-Qed.
-
-Lemma ivp_scheme_linear Y00 rmax : scheme_linear Y00 (ivp_scheme rmax).
-Proof.
-  unfold scheme_linear, ivp_scheme; cbn [s_fx s_vals s_boundary s_radial]. split; [|split; [|split; [|split]]].
-  - intros. unfold ivp_fx. ring.
-  - intros l m a b B1 B2. unfold ivp_cond, lin_vals. destruct (ivp_is_monopole l m); cbn [map snd combine fst];
-      (apply (f_equal2 cons); [unfold Rdiv; ring|apply (f_equal2 cons); [unfold Rdiv; ring|reflexivity]]).
-  - intros l m B1 B2. unfold ivp_cond. destruct (ivp_is_monopole l m); reflexivity.
-  - intros. unfold ivp_boundary, Rdiv. ring.
-  - intros. unfold ivp_radial_value. ring.
-Qed.
-
-Lemma linear_in_density_bvp_lemma pt solve Y00 atoms a b f g p : solver_linear solve -> Forall (atom_linear pt) atoms ->
-  V_mol pt solve Y00 bvp_scheme atoms (fun x => a * f x + b * g x) p
-  = a * V_mol pt solve Y00 bvp_scheme atoms f p + b * V_mol pt solve Y00 bvp_scheme atoms g p.
-Proof. intros HS HA. apply V_mol_linear; auto. apply bvp_scheme_linear. Qed.
-
-Lemma linear_in_density_ivp_lemma pt solve Y00 rmax atoms a b f g p : solver_linear solve -> Forall (atom_linear pt) atoms ->
-  V_mol pt solve Y00 (ivp_scheme rmax) atoms (fun x => a * f x + b * g x) p
-  = a * V_mol pt solve Y00 (ivp_scheme rmax) atoms f p + b * V_mol pt solve Y00 (ivp_scheme rmax) atoms g p.
-Proof. intros HS HA. apply V_mol_linear; auto. apply ivp_scheme_linear. Qed.
-
 (* hypotheses are satisfiable on a non-trivial instance: a solver returning  r |-> sum of the condition values + f(1)  *)
 Example linear_nonvacuous :
   solver_linear (fun f _ _ v r => rsum v * r + f 1) /\
@@ -125,113 +92,3 @@ Proof.
   - split; intros; simpl; ring.
 Qed.
 
-(* ================================================================== solve_poisson_robust *)
-Section RobustProofs.
-  Variable pt : Type.
-  Variable Vbvp fit_rho fit_V : (pt -> R) -> pt -> R.
-
-  Definition sum_at (cs : list (pt -> R)) (x : pt) : R := rsum (map (fun c => c x) cs).
-
-  Lemma residual1_spec cores f x : residual1 pt cores f x = f x - sum_at cores x.
-  Proof.
-    revert f. unfold residual1, sum_at. induction cores as [|c t IH]; intros f; simpl; [ring|].
-    rewrite IH. unfold robust_split1. ring.
-  Qed.
-
-  Lemma core_potential_spec vcores p : core_potential pt vcores p = sum_at vcores p.
-  Proof.
-    unfold core_potential, sum_at.
-    assert (G : forall v0, fold_left (fun v c => robust_core_acc v (c p)) vcores v0 = v0 + rsum (map (fun c => c p) vcores)).
-    { induction vcores as [|c t IH]; intros v0; simpl; [ring|]. rewrite IH. unfold robust_core_acc. ring. }
-    rewrite G. ring.
-  Qed.
-
-  Definition res_split1 (cores : list (pt -> R)) (f : pt -> R) : pt -> R := fun x => f x - sum_at cores x.
-
-  (* the result IS: analytic core potential (+ analytic potential of the fit) + numerical potential of what is left *)
-  Lemma robust_recombination_lemma cores vcores f p :
-    robust pt Vbvp fit_rho fit_V false cores vcores f p = sum_at vcores p + Vbvp (res_split1 cores f) p /\
-    robust pt Vbvp fit_rho fit_V true cores vcores f p =
-      sum_at vcores p + fit_V (res_split1 cores f) p + Vbvp (fun x => res_split1 cores f x - fit_rho (res_split1 cores f) x) p.
-  Proof.
-    assert (E : residual1 pt cores f = res_split1 cores f) by (apply functional_extensionality; intros x; apply residual1_spec).
-    unfold robust. rewrite E, core_potential_spec. unfold robust_total, robust_split2. split; ring.
-  Qed.
-
-  (* ... which is the Coulomb potential of f whenever each analytic potential is the Coulomb potential of the density that was
-     subtracted and the numerical solver is exact on what is left (Coul: any linear operator) *)
-  Variable Coul : (pt -> R) -> pt -> R.
-  Hypothesis Coul_linear : forall a b f g p, Coul (fun x => a * f x + b * g x) p = a * Coul f p + b * Coul g p.
-
-  Lemma Coul_zero p : Coul (fun _ => 0) p = 0.
-  Proof.
-    pose proof (Coul_linear 0 0 (fun _ => 0) (fun _ => 0) p) as H. cbv beta in H.
-    replace (fun _ : pt => 0 * 0 + 0 * 0) with (fun _ : pt => 0) in H by (apply functional_extensionality; intros; ring).
-    rewrite H. ring.
-  Qed.
-
-  Lemma Coul_sum cores vcores p : Forall2 (fun c v => forall q, v q = Coul c q) cores vcores ->
-    Coul (sum_at cores) p = sum_at vcores p.
-  Proof.
-    intros H. revert p. induction H as [|c v cs vs Hcv _ IH]; intros p; unfold sum_at in *; simpl.
-    - apply Coul_zero.
-    - replace (fun x => c x + rsum (map (fun c0 => c0 x) cs)) with (fun x => 1 * c x + 1 * rsum (map (fun c0 => c0 x) cs))
-        by (apply functional_extensionality; intros; ring).
-      rewrite Coul_linear, IH, Hcv. ring.
-  Qed.
-
-  Lemma Coul_split3 (s g h f : pt -> R) p : (forall x, f x = s x + g x + h x) -> Coul f p = Coul s p + Coul g p + Coul h p.
-  Proof.
-    intros H. replace f with (fun x => 1 * s x + 1 * (fun y => 1 * g y + 1 * h y) x)
-      by (apply functional_extensionality; intros x; rewrite H; ring).
-    rewrite (Coul_linear 1 1 s (fun y => 1 * g y + 1 * h y)), (Coul_linear 1 1 g h). ring.
-  Qed.
-
-  Lemma robust_sound_lemma (split2 : bool) cores vcores f p :
-    Forall2 (fun c v => forall q, v q = Coul c q) cores vcores ->
-    (forall g q, fit_V g q = Coul (fit_rho g) q) ->
-    (forall g q, g = (if split2 then (fun x : pt => res_split1 cores f x - fit_rho (res_split1 cores f) x) else res_split1 cores f) ->
-                 Vbvp g q = Coul g q) ->
-    robust pt Vbvp fit_rho fit_V split2 cores vcores f p = Coul f p.
-  Proof.
-    intros Hc Hf Hex. destruct (robust_recombination_lemma cores vcores f p) as [R1 R2].
-    pose proof (Coul_sum cores vcores p Hc) as Hs.
-    destruct split2.
-    - rewrite R2, (Hex _ p eq_refl), Hf, <- Hs. symmetry. apply Coul_split3. intros x. unfold res_split1. ring.
-    - rewrite R1, (Hex _ p eq_refl), <- Hs.
-      rewrite (Coul_split3 (sum_at cores) (fun _ => 0) (res_split1 cores f) f p) by (intros x; unfold res_split1; ring).
-      rewrite Coul_zero. ring.
-  Qed.
-
-  (* exact cancellation: the density IS the core model *)
-  Lemma robust_exact_lemma split2 cores vcores f p :
-    (forall x, f x = sum_at cores x) ->
-    (forall q, Vbvp (fun _ => 0) q = 0) ->
-    (split2 = true -> (forall x, fit_rho (fun _ => 0) x = 0) /\ (forall q, fit_V (fun _ => 0) q = 0)) ->
-    robust pt Vbvp fit_rho fit_V split2 cores vcores f p = sum_at vcores p.
-  Proof.
-    intros Hf H0 Hfit. destruct (robust_recombination_lemma cores vcores f p) as [R1 R2].
-    assert (Z0 : res_split1 cores f = (fun _ => 0)) by (apply functional_extensionality; intros x; unfold res_split1; rewrite Hf; ring).
-    destruct split2.
-    - destruct (Hfit eq_refl) as [F1 F2]. rewrite R2, Z0, F2.
-      replace (fun x : pt => 0 - fit_rho (fun _ : pt => 0) x) with (fun _ : pt => 0)
-        by (apply functional_extensionality; intros x; rewrite F1; ring).
-      rewrite H0. ring.
-    - rewrite R1, Z0, H0. ring.
-  Qed.
-End RobustProofs.
-
-(* with the model of solve_poisson_bvp for Vbvp, "the solver maps 0 to 0" is a consequence of the linearity of the oracles *)
-Lemma robust_exact_on_core_model_lemma pt solve Y00 atoms fit_rho fit_V split2 cores vcores f p :
-  solver_linear solve -> Forall (atom_linear pt) atoms ->
-  (forall x, f x = sum_at pt cores x) ->
-  (split2 = true -> (forall x, fit_rho (fun _ => 0) x = 0) /\ (forall q, fit_V (fun _ => 0) q = 0)) ->
-  robust pt (V_mol pt solve Y00 bvp_scheme atoms) fit_rho fit_V split2 cores vcores f p = sum_at pt vcores p.
-Proof.
-  intros HS HA Hf Hfit. apply robust_exact_lemma; auto.
-  intros q. apply V_mol_zero; auto. apply bvp_scheme_linear.
-Qed.
-
-Example robust_nonvacuous :
-  robust unit (fun g _ => 2 * g tt) (fun g _ => g tt / 2) (fun g _ => g tt) true [fun _ => 3] [fun _ => 6] (fun _ => 5) tt = 10.
-Proof. unfold robust, residual1, core_potential, robust_total, robust_split1, robust_split2, robust_core_acc. simpl. field. Qed.
